@@ -66,7 +66,7 @@ func d1FreshSchemaRules(info *types.Info, fd *ast.FuncDecl, rs *ast.RangeStmt) b
 
 // RuleD1: every range over a map is order-insensitive.
 func RuleD1(c *Ctx) {
-	sc := c.Run.Begin("D1", "every range over a map (by type) is order-insensitive: it only fills maps/sets, accumulates commutatively, appends to a slice that is sorted before use, and never returns, breaks or emits data that depend on which element came first", 2)
+	sc := c.Run.Begin("D1", "every range over a map (by type) is order-insensitive: it only fills maps/sets, accumulates commutatively, appends to a slice that is sorted before use, and never returns, breaks or emits data that depend on which element came first", 1)
 	defer sc.End()
 	c.P.Funcs(func(pk *pkgT, fd *ast.FuncDecl) {
 		info := pk.TypesInfo
@@ -376,7 +376,7 @@ func RuleD2(c *Ctx) {
 
 // RuleD3: regex example generators are seeded with constants.
 func RuleD3(c *Ctx) {
-	sc := c.Run.Begin("D3", "every regex.WithGeneratorSeed argument is a constant", 2)
+	sc := c.Run.Begin("D3", "every regex.WithGeneratorSeed argument is a constant", 1)
 	defer sc.End()
 	n := 0
 	c.eachCall(func(cs callSite) {
@@ -461,7 +461,7 @@ func (c *Ctx) orderedCollections() []orderedColl {
 
 // RuleD4: ordered collections iterate their order slice.
 func RuleD4(c *Ctx) {
-	sc := c.Run.Begin("D4", "every iterating or serialising method of an insertion-ordered collection walks its order slice, never the map; Tag.MarshalJSON reads its protocol groups by constant keys", 2)
+	sc := c.Run.Begin("D4", "every iterating or serialising method of an insertion-ordered collection walks its order slice, never the map; Tag.MarshalJSON reads its protocol groups by constant keys", 1)
 	defer sc.End()
 	colls := c.orderedCollections()
 	if len(colls) < 5 {
@@ -543,7 +543,7 @@ func RuleD4(c *Ctx) {
 
 // RuleG2: package-level variables are written only while initialising.
 func RuleG2(c *Ctx) {
-	sc := c.Run.Begin("G2", "every package-level variable of the library is stored to (including element and field stores, and address-taking) only in its initialiser, in init, or inside a sync.Once.Do closure", 2)
+	sc := c.Run.Begin("G2", "every package-level variable of the library is stored to (including element and field stores, and address-taking) only in its initialiser, in init, or inside a sync.Once.Do closure", 1)
 	defer sc.End()
 	type gv struct {
 		v  *types.Var
